@@ -544,6 +544,158 @@ pub fn check_with(
     Case::pass(responder_answered && !effective.is_empty()).labels(labels)
 }
 
+// ------------------------------------------------------------------ impostor initiator
+
+#[derive(Debug, Clone, Serialize, Deserialize)]
+pub enum Impostor {
+    /// honest member (control group)
+    None,
+    /// the fabric record names the device's root (so Sigma1 addresses the device's fabric) but
+    /// the NOC was issued by another root that uses the same fabric id
+    OtherRootSameFabricId,
+    /// the NOC is a valid NOC of the addressed fabric, but the initiator signs with another key
+    WrongKey,
+    /// as OtherRootSameFabricId, with an intermediate certificate of the foreign CA
+    OtherRootWithIcac,
+}
+
+#[derive(Debug, Clone, Serialize, Deserialize)]
+pub struct ImpostorCase {
+    kind: Impostor,
+    icac: bool,
+    node_id_same_as_member: bool,
+    plan: Plan,
+    seed: u32,
+}
+
+fn impostor_strategy() -> impl Strategy<Value = ImpostorCase> {
+    (
+        prop_oneof![
+            1 => Just(Impostor::None),
+            2 => Just(Impostor::OtherRootSameFabricId),
+            2 => Just(Impostor::WrongKey),
+            1 => Just(Impostor::OtherRootWithIcac),
+        ],
+        any::<bool>(),
+        any::<bool>(),
+        prop_oneof![3 => Just(Plan::default()), 1 => adv::plan(6)],
+        any::<u32>(),
+    )
+        .prop_map(|(kind, icac, node_id_same_as_member, plan, seed)| ImpostorCase {
+            kind,
+            icac,
+            node_id_same_as_member,
+            plan,
+            seed,
+        })
+}
+
+fn check_impostor(case: &ImpostorCase) -> Case {
+    vh::sim::reset_universe();
+    let net = Net::new(2);
+    let cd = mk_crypto(case.seed);
+    let cc = mk_crypto(case.seed ^ 0x7777);
+    let cgen = mk_crypto(case.seed ^ 0x0BAD_5EED);
+    let device = new_matter(5540);
+    let ctrl = new_matter(5541);
+    const FABRIC_ID: u64 = 0x1;
+    const DEV_NODE: u64 = 0x2000;
+    const CTRL_NODE: u64 = 0x1000;
+
+    let setup = (|| -> Result<core::num::NonZeroU8, rs_matter::error::Error> {
+        let ca = Ca::new(&cgen, FABRIC_ID, case.icac, 5)?;
+        let dm = new_member(&cgen, &ca, DEV_NODE, &[])?;
+        install(&device, &cd, &ca, &dm, CTRL_NODE)?;
+        let node = if case.node_id_same_as_member { CTRL_NODE } else { CTRL_NODE + 5 };
+        match case.kind {
+            Impostor::None => {
+                let m = new_member(&cgen, &ca, node, &[])?;
+                install(&ctrl, &cc, &ca, &m, CTRL_NODE)
+            }
+            Impostor::WrongKey => {
+                // a genuine NOC of the fabric (say, a captured one) - but not its private key
+                let mut m = new_member(&cgen, &ca, node, &[])?;
+                let other = new_member(&cgen, &ca, node + 100, &[])?;
+                m.key = other.key;
+                install(&ctrl, &cc, &ca, &m, CTRL_NODE)
+            }
+            Impostor::OtherRootSameFabricId | Impostor::OtherRootWithIcac => {
+                // the attacker runs a CA of their own with the same fabric id and IPK
+                let mut evil = Ca::new(&cgen, FABRIC_ID, matches!(case.kind, Impostor::OtherRootWithIcac), 5)?;
+                let m = new_member(&cgen, &evil, node, &[])?;
+                // ... and claims the device's root in its fabric record
+                evil.rcac = ca.rcac.clone();
+                evil.ipk = ca.ipk;
+                install(&ctrl, &cc, &evil, &m, CTRL_NODE)
+            }
+        }
+    })();
+    let fab = match setup {
+        Ok(f) => f,
+        Err(e) => return Case::inconclusive(format!("setup: {e:?}")),
+    };
+    let adv_log = adv::install(&net, &case.plan);
+    let result: RefCell<Option<bool>> = RefCell::new(None);
+    let stop;
+    {
+        let sc = SecureChannel::new(&cd, &());
+        let responder = Responder::new("device", sc, &device, 0);
+        let mut ex = Exec::new(Sched::Fifo);
+        ex.add_time_source(&net);
+        ex.spawn("dev.run", async {
+            let _ = device.run(&cd, net.end(0), net.end(0), NoNetwork).await;
+        });
+        ex.spawn("dev.resp", async {
+            let _ = responder.run::<2>().await;
+        });
+        ex.spawn("ctrl.run", async {
+            let _ = ctrl.run(&cc, net.end(1), net.end(1), NoNetwork).await;
+        });
+        stop = do_handshake(&mut ex, "impostor", 60 * SEC, &ctrl, &cc, &result, fab, DEV_NODE);
+    }
+    if stop == Stop::PollLimit {
+        return Case::inconclusive("poll watchdog");
+    }
+    let _ = adv_log;
+    let dev_case: Vec<SessionSnapshot> = sessions(&device)
+        .into_iter()
+        .filter(|s| matches!(s.mode, SessionMode::Case { .. }) && !s.reserved)
+        .collect();
+    let sigma3_sent = net.with_tap(|t| {
+        t.sent
+            .iter()
+            .filter_map(|s| mutate::payload_offset(&s.bytes))
+            .any(|(w, _)| w.proto_id == PROTO_ID_SECURE_CHANNEL && w.opcode == OP_SIGMA3)
+    });
+    match case.kind {
+        Impostor::None => {
+            if case.plan.is_noop() && dev_case.is_empty() {
+                return Case::fail(
+                    "impostor:honest-member-refused",
+                    "an honest member of the fabric could not establish a CASE session over an undisturbed network".to_string(),
+                );
+            }
+            Case::pass(false).label("honest")
+        }
+        _ => {
+            if !dev_case.is_empty() {
+                return Case::fail(
+                    format!("impostor:session-for-{:?}", case.kind),
+                    format!("the device established CASE session(s) {:?} for an initiator that is not a member of the addressed fabric ({:?})", dev_case.iter().map(|s| (s.local_sess_id, s.peer_nodeid)).collect::<Vec<_>>(), case.kind),
+                );
+            }
+            let ctrl_case = sessions(&ctrl).into_iter().filter(|s| matches!(s.mode, SessionMode::Case { .. }) && !s.reserved).count();
+            if ctrl_case > 0 {
+                return Case::fail(
+                    format!("impostor:initiator-session-for-{:?}", case.kind),
+                    "the impostor ended up with a CASE session".to_string(),
+                );
+            }
+            Case::pass(sigma3_sent).label(format!("{:?}", case.kind))
+        }
+    }
+}
+
 fn main() {
     let mut run = Run::new(
         "C01",
@@ -552,8 +704,10 @@ fn main() {
     );
     run.assume("a mutation counts only if the mutated copy was the first copy of that message counter consumed by the receiving stack");
     run.assume("on the resumption path the session ids, destination id and public key of Sigma1 are not authenticated by the protocol; only initiator random, resumption id and MIC mutations are required to prevent a session there");
-    run.assume("hostile-initiator cases (forged chains) are a separate sub-check once the certificate forger is merged");
+    run.assume("case-impostor drives the responder with initiators that address the device's fabric (same root in their fabric record, same fabric id and IPK) but hold a NOC from a foreign root, or a genuine NOC without its private key; the full single-deviation chain space is checked against CaseP::validate_certs directly in C19");
     let n = run.cases(2_500, 150_000);
     run.prop("case-hostile-path", n, case_strategy, check);
+    let n = run.cases(1_500, 60_000);
+    run.prop("case-impostor", n, impostor_strategy, check_impostor);
     run.finish();
 }
